@@ -174,6 +174,10 @@ func (u *zzC10Univ) aMAC(hw net.HardwareAddr) (m string) {
 	if m, ok := u.absMAC[hw.String()]; ok {
 		return m
 	}
+	if hw.String() == "00:00:00:00:00:00" {
+		// The hardware address of nobody: what an address conflict leaves.
+		return "blk"
+	}
 
 	return "?" + hw.String()
 }
@@ -240,7 +244,7 @@ func (u *zzC10Univ) alphabet() (acts []zzC10Act) {
 		}
 	}
 	for _, a := range u.Pool {
-		acts = append(acts, zzC10Act{Name: "Expire", A: a})
+		acts = append(acts, zzC10Act{Name: "Expire", A: a}, zzC10Act{Name: "BlockEnd", A: a})
 	}
 	acts = append(acts, zzC10Act{Name: "Tick"}, zzC10Act{Name: "Restart"})
 
@@ -310,6 +314,10 @@ type zzC10Obs struct {
 	Disk []zzC10L `json:"disk"`
 	// Prob lists disagreements between the structures (empty = all agree).
 	Prob []string `json:"prob"`
+	// Note is not compared: facts hidden from the abstraction that help to
+	// tell causes apart when a disagreement is classified ("pastexpiry:<a>" =
+	// the nameless dynamic entry on a has a past, non-zero expiry).
+	Note []string `json:"note"`
 	key  string
 	ord  string
 }
@@ -578,6 +586,32 @@ func (y *zzC10Sys) exec(a zzC10Act) (r zzC10Reply, err error) {
 		y.srv.onNotify(LeaseChangedDBStore)
 
 		return zzC10Reply{K: "-"}, nil
+	case "BlockEnd":
+		// The aftermath of an address conflict that the harness cannot
+		// provoke (it needs an address that answers an ICMP echo): the entry of
+		// an address nobody holds becomes what blocklistLease leaves behind,
+		// after its time has run out.
+		target := u.ipOf[a.A]
+		found := false
+		y.s4.leasesLock.Lock()
+		for _, l := range y.s4.leases {
+			if l.IP == target && !l.IsStatic && !l.Expiry.After(time.Now()) {
+				if l.Hostname != "" && y.s4.hostsIndex[l.Hostname] == l {
+					delete(y.s4.hostsIndex, l.Hostname)
+				}
+				l.HWAddr = make(net.HardwareAddr, defaultHwAddrLen)
+				l.Hostname = ""
+				l.Expiry = time.Now().Add(-time.Hour).Truncate(time.Second)
+				found = true
+			}
+		}
+		y.s4.leasesLock.Unlock()
+		if !found {
+			return r, fmt.Errorf("blockend: no entry that nobody holds on %d", a.A)
+		}
+		y.srv.onNotify(LeaseChangedDBStore)
+
+		return zzC10Reply{K: "-"}, nil
 	case "Tick":
 		// One tick passes for everybody: the server compares expiry instants
 		// with time.Now, so moving the instants of the running leases back by
@@ -642,6 +676,9 @@ func (y *zzC10Sys) abs() (o *zzC10Obs) {
 		macs = append(macs, al.Mac)
 		if seen[l] {
 			prob["list:dup"] = true
+		}
+		if !l.IsStatic && l.Hostname == "" && !l.Expiry.IsZero() && !l.Expiry.After(now) {
+			o.Note = append(o.Note, "pastexpiry:"+strconv.Itoa(al.IP))
 		}
 		seen[l] = true
 		if al.F != 0 {
@@ -899,7 +936,7 @@ func zzC10LoadGraph(t testing.TB, hdr *zzC10Hdr) (g *zzC10Graph) {
 func (n *zzC10Node) enabled(a zzC10Act) (outs []zzC10Out, ok bool) {
 	outs, listed := n.edges[a.key()]
 	switch a.Name {
-	case "Expire", "Tick":
+	case "Expire", "Tick", "BlockEnd":
 		return outs, listed && len(outs) > 0
 	case "AddStatic":
 		if n.noadd {
@@ -996,6 +1033,7 @@ type zzC10Bad struct {
 	Src        []zzC10L       `json:"src"`
 	SrcDisk    []zzC10L       `json:"srcdisk"`
 	SrcProb    []string       `json:"srcprob"`
+	SrcNote    []string       `json:"srcnote"`
 	Want       []zzC10Out     `json:"want"`
 	Why        string         `json:"why"`
 	Reply      zzC10Reply     `json:"reply"`
@@ -1297,7 +1335,7 @@ func (wk *zzC10Walk) report(a zzC10Act, srcNode string, src *zzC10Obs, want []zz
 		short = append(short, a)
 	}
 	wk.mu.Unlock()
-	rec := &zzC10Bad{Kind: "bad", Act: a, Src: src.Ls, SrcDisk: src.Disk, SrcProb: src.Prob, Want: want, Why: why, Reply: r, Post: post, Sig: sig, Univ: wk.g.u}
+	rec := &zzC10Bad{Kind: "bad", Act: a, Src: src.Ls, SrcDisk: src.Disk, SrcProb: src.Prob, SrcNote: src.Note, Want: want, Why: why, Reply: r, Post: post, Sig: sig, Univ: wk.g.u}
 	if cnt > wk.opts.MaxRepro {
 		rec.Kind = "bad-more"
 		rec.Post = nil
@@ -1569,6 +1607,7 @@ type zzC10TraceLine struct {
 	Out     zzC10Reply `json:"out"`
 	Prob    []string   `json:"prob"`
 	SrcProb []string   `json:"srcprob"`
+	SrcNote []string   `json:"srcnote"`
 	SrcDisk []zzC10L   `json:"srcdisk"`
 	Run     int        `json:"run"`
 	Step    int        `json:"step"`
@@ -1645,10 +1684,18 @@ func zzC10Pick(u *zzC10Univ, rng *rand.Rand, cur *zzC10Obs) (a zzC10Act) {
 		} else {
 			a.M, a.A = pickMac(), reqAddrs[rng.Intn(len(reqAddrs))]
 		}
+	case x < 97:
+		// The record of an ended address conflict on an entry nobody holds.
+		a.Name = "Restart"
+		for _, l := range cur.Ls {
+			if l.F == 0 && l.Mac != "blk" {
+				a.Name, a.A = "BlockEnd", l.IP
+			}
+		}
 	default:
 		a.Name = "Restart"
 	}
-	if strings.HasPrefix(a.M, "?") {
+	if strings.HasPrefix(a.M, "?") || a.M == "blk" {
 		a.M = pickMac()
 	}
 
@@ -1697,14 +1744,14 @@ func TestZZVerifC10Trace(t *testing.T) {
 			a := zzC10Pick(u, rng, cur)
 			r, xerr := y.exec(a)
 			if xerr != nil {
-				if a.Name == "Expire" || a.Name == "Tick" {
+				if a.Name == "Expire" || a.Name == "Tick" || a.Name == "BlockEnd" {
 					continue
 				}
 				t.Fatalf("run %d step %d %v: %v", run, step, a, xerr)
 			}
 			post := y.abs()
 			w.put(&zzC10TraceLine{Reset: fresh, Act: a, Src: cur.Ls, Dst: post.Ls, Disk: post.Disk, Out: r,
-				Prob: post.Prob, SrcProb: cur.Prob, SrcDisk: cur.Disk, Run: run, Step: step})
+				Prob: post.Prob, SrcProb: cur.Prob, SrcNote: cur.Note, SrcDisk: cur.Disk, Run: run, Step: step})
 			fresh = false
 			cur = post
 			if !zzC10Soft(post.Prob) || !zzC10WellFormed(post.Ls) {
